@@ -1723,6 +1723,14 @@ impl<T: Transport, Env: UtpEnvironment> VirtualSocket<T, Env> {
             // Flow control: flush as many in-order messages to user RX as possible.
             bail_if_err!(self.user_rx.flush(cx).map(|_| ()));
 
+            // The advertised window is rounded down to the current MSS, which can exceed the
+            // threshold flush() uses to decide whether the reader needs to wake us. If we are
+            // about to advertise a zero window, make sure a read re-polls us, otherwise the
+            // window update is never sent.
+            if self.rx_window() == 0 {
+                self.user_rx.register_dispatcher_waker(cx);
+            }
+
             if self
                 .timers
                 .remote_inactivity_timer
